@@ -429,6 +429,19 @@ func (h *c29Hist) readPrefixSeen(path string, off int, data string) bool {
 	return false
 }
 
+// sizeAtMostSeen: some state of the file was no longer than end bytes (the eof flag of a READ is computed
+// from attributes fetched after the data, i.e. possibly from a later state than the data)
+//
+//go:norace
+func (h *c29Hist) sizeAtMostSeen(path string, end int) bool {
+	for i := range h.contents {
+		if h.contents[i].k == path && len(h.contents[i].v) <= end {
+			return true
+		}
+	}
+	return false
+}
+
 //go:norace
 func (h *c29Hist) listingSeen(dir, l string) bool { return kvHas(h.listings, dir, l) }
 
@@ -552,7 +565,10 @@ func (c *c29Client) run(ops []C29Op) {
 					if rd, err := c.cl.Read(r.FH, uint64(off), uint32(cnt)); err == nil && rd.Status == 0 {
 						c.checkAttr("peek-read", pp, rd.Attr)
 						c.o.Tick()
-						if !c.hist.readSeen(pp, off, cnt, string(rd.Data)) && !(!rd.EOF && c.hist.readPrefixSeen(pp, off, string(rd.Data))) {
+						// (a READ is three backend steps - size, data, attributes for eof - and its parts may come from
+						// different states when the owner changes the file meanwhile: data that are a proper prefix of
+						// what some state held there are a short read; eof then needs some state that ended there)
+						if !c.hist.readSeen(pp, off, cnt, string(rd.Data)) && !(c.hist.readPrefixSeen(pp, off, string(rd.Data)) && (!rd.EOF || c.hist.sizeAtMostSeen(pp, off+len(rd.Data)))) {
 							c.o.Vio("C29.read-data-of-no-state", fmt.Sprintf("cached=%v,peer", c.sc.Cached), "client %d READ of client %d's %s off=%d count=%d returned %x, which is the content of no state the file ever had", c.idx, op.Peer, pp, off, cnt, rd.Data)
 						}
 					}
